@@ -113,6 +113,12 @@ def run_rule(ctx, name):
     if name not in RULES:
         raise AnalysisError('unknown rule %s' % name)
     rr = RuleResult(name)
-    RULES[name](ctx, rr)
+    try:
+        RULES[name](ctx, rr)
+    except AnalysisError as e:
+        # a rule that has already recognised a wrong construct keeps that verdict; only a rule with nothing to report has "no verdict"
+        if not rr.findings:
+            raise
+        rr.info['stopped_early'] = str(e)[:300]
     ctx._cache[name] = rr
     return rr
